@@ -1,22 +1,22 @@
 // counterexample for c_container::c10_step_waiting_jxlp_index (property C10) found by CBMC; replay with
 //   /verif/bin/check --replay /verif/replays/C10/c10_step_waiting_jxlp_index.rs
-// repo: {"head": "cf6008ad68998329b3224a0347e6a30cd494bea9", "dirty": true, "diff_sha256": "a259dae3011daa1c"}
+// repo: {"head": "736f7b025cf48e86662bf74aeb57bde61d8d7ccc", "dirty": true, "diff_sha256": "0d41a638d70b1b4d"}
 // module: c_container
 /// Test generated for harness `c_container::c10_step_waiting_jxlp_index` 
 ///
 /// Check for `assertion`: "assertion failed: state_matches(&spec, &post)"
 
 #[test]
-fn kani_concrete_playback_c10_step_waiting_jxlp_index_1903198878607192459() {
+fn kani_concrete_playback_c10_step_waiting_jxlp_index_16468841174217106684() {
     let concrete_vals: Vec<Vec<u8>> = vec![
-        // 128
-        vec![128],
-        // 0
-        vec![0],
-        // 0
-        vec![0],
-        // 0
-        vec![0],
+        // 255
+        vec![255],
+        // 255
+        vec![255],
+        // 255
+        vec![255],
+        // 248
+        vec![248],
         // 255
         vec![255],
         // 255
@@ -49,12 +49,12 @@ fn kani_concrete_playback_c10_step_waiting_jxlp_index_1903198878607192459() {
         vec![255],
         // 255
         vec![255],
-        // 12ul
-        vec![12, 0, 0, 0, 0, 0, 0, 0],
+        // 5ul
+        vec![5, 0, 0, 0, 0, 0, 0, 0],
         // 1
         vec![1],
-        // 12ul
-        vec![12, 0, 0, 0, 0, 0, 0, 0],
+        // 5ul
+        vec![5, 0, 0, 0, 0, 0, 0, 0],
         // 106
         vec![106],
         // 120
@@ -75,8 +75,8 @@ fn kani_concrete_playback_c10_step_waiting_jxlp_index_1903198878607192459() {
         vec![1],
         // 2
         vec![2],
-        // 0
-        vec![0, 0, 0, 0],
+        // 2147483640
+        vec![248, 255, 255, 127],
     ];
     kani::concrete_playback_run(concrete_vals, c10_step_waiting_jxlp_index);
 }
